@@ -390,7 +390,6 @@ func c13Limit(c *Ctx) {
 	}
 }
 
-
 // c13Aborted: connections that die in the middle of a frame (after the length prefix, inside the
 // body, after one octet of the prefix) must leave nothing behind: the connections opened next send
 // one complete query each and every one of them is decoded and answered.
@@ -434,7 +433,6 @@ func c13Aborted(c *Ctx, b *Bed, listeners []string) {
 		}
 	}
 }
-
 
 // c13IdleMidFrame: listeners with a 1 s idle time-out; a slow query is in flight while the next
 // frame arrives in two segments 1.4 s apart. Whatever the listener does at its deadline (closing
